@@ -94,3 +94,16 @@ Example C08_example :
   create_quotas 4 10 = Ok [3; 3; 2; 2] /\ create_quotas 4 3 = Ok [1; 1; 1; 0] /\
   create_project_lecturers 5 3 = Ok [1; 1; 2; 2; 3] /\ 0 < 4 /\ 0 <= 3 <= 10.
 Proof. vm_compute. repeat split; try reflexivity; discriminate. Qed.
+
+(* the hypotheses of the file-level theorems are satisfiable: a concrete accepted argument vector, and draws honouring
+   the contract with list lengths 2, 1, 2 *)
+Definition C08_args : gargs := mkGargs 3 1 true 3 2 0 1 2 "0.0" "0.0" "1.0" 0 3 0 0 "0.0" 0.
+Example C08_args_ok : gargs_ok C08_args.
+Proof. unfold gargs_ok, C08_args; cbn. repeat split; try lia; try (intro H; discriminate H). Qed.
+Example C08_lengths_example : exists d text,
+  draws_contract C08_args d /\ map (fun l => Z.of_nat (length l)) (d_first d) = [2; 1; 2] /\
+  instance_text C08_args d = Ok text.
+Proof.
+  apply C08_every_length_can_occur; [exact C08_args_ok|reflexivity|].
+  intros x [<-|[<-|[<-|[]]]]; cbn; lia.
+Qed.
